@@ -202,7 +202,7 @@ def pb_terms(opname, idx, x, g):
         x, g = g, x
     for xa, cx in alg.canon(x).t.items():
         for ga, cg in alg.canon(g).t.items():
-            out.append((cg.conj() * cx, opname, idx, repr(xa), repr(ga)))
+            out.append((cg.conj() * cx, opname, idx, xa, ga))
     return out
 
 
@@ -230,14 +230,13 @@ def pb_eq(a, b):
     return z3.And(*cs) if cs else z3.BoolVal(True)
 
 
-def pb_pair(t, dname):
-    """pair a parameter cotangent with the tangent direction named `dname`:
-    sum_k coef_k * <g_k, (dOp . d) x_k>  as a z3 real (uninterpreted per elementary functional)"""
-    tot = z3.RealVal(0)
-    for key, c in pb_normal(t).items():
-        if not c.is_real():
-            raise OutOfSubset("complex parameter cotangent")
-        tot = tot + c.re * z3.Real("dpair<%s|%s>" % (dname, "|".join(str(k) for k in key)))
+def pb_pair(t, dop):
+    """pair a parameter cotangent with a tangent direction dp: `dop(opname, idx)` names the abstract operator
+    (dOp/dp_idx . dp).  Returns sum_k coef_k * <g_k, (dOp . dp) x_k> as an alg.Sc"""
+    tot = alg.ZERO
+    for (opname, idx, xa, ga), c in pb_normal(t).items():
+        d = dop(opname, idx)
+        tot = tot + c * alg.ip(alg.Vec({ga: alg.ONE}), alg.Vec({xa: alg.ONE}).apply(d))
     return tot
 
 
@@ -278,7 +277,9 @@ def op_apply(x, opname, axis, out_n, op_batch=(), params=(), dtype=None):
             elif kind != "vec" or g.kind != "vec":
                 raise OutOfSubset("parameter pull-back through an opaque operand")
             else:
-                gps.append(st.Tensor("pb", pb_terms(opname, i, x.v, g.v), p._shape, p.dtype))
+                pbt = st.Tensor("pb", pb_terms(opname, i, x.v, g.v), p._shape, p.dtype)
+                # the cotangent depends on x, g and (through dOp) on the parameters: keep it on the tape
+                gps.append(st._taped("pb:" + opname, [x, g] + plist, pbt, st._no_vjp("pb")))
         return [gx] + gps
     return st._taped("op:" + opname, [x] + plist, r, vjp)
 
@@ -299,7 +300,7 @@ def absop_class(with_rmm=True, with_mm=True, with_gpn=True):
             LinearOperator.__init__(self, shape=tuple(batch) + (m, n), is_hermitian=hermitian, dtype=dtype or st.float64,
                                     _suppress_hermit_warning=True)
             self.opname = opname
-            alg.Op.get(opname, hermitian=hermitian)
+            alg.Op.get(opname).hermitian = bool(hermitian)   # the registry outlives a path: set, do not accumulate
             self.nparams = nparams
             for i in range(nparams):
                 p = st.Tensor("par", ("par", opname, i), (3,), dtype or st.float64, requires_grad=True, name="%s.p%d" % (opname, i))
@@ -354,3 +355,36 @@ def concrete_replay(prop, oracles, timeout=900):
         out, rc = "timeout", 2
     return {"confirmed": rc == 1, "script": script, "args": list(oracles), "returncode": rc, "output": out,
             "how_to_rerun": "PYTHONPATH=%s:%s %s %s %s" % (repo, os.path.join(verif, "replay"), py, script, " ".join(oracles))}
+
+
+
+def reaches(t, target):
+    """is `target` (a tensor object) an ancestor of t on the autograd tape (or t itself)?"""
+    seen = set()
+    stack = [t]
+    while stack:
+        u = stack.pop()
+        if u is target:
+            return True
+        if not isinstance(u, st.Tensor) or id(u) in seen:
+            continue
+        seen.add(id(u))
+        if u.node is not None:
+            stack.extend(u.node.parents)
+    return False
+
+
+
+def pb_parameter_inputs(t):
+    """the parameter tensors that the pull-back nodes below `t` were evaluated with (operands 2.. of 'pb:' nodes)"""
+    out, seen, stack = [], set(), [t]
+    while stack:
+        u = stack.pop()
+        if not isinstance(u, st.Tensor) or id(u) in seen or u.node is None:
+            continue
+        seen.add(id(u))
+        if u.node.name.startswith("pb:"):
+            out.extend(u.node.parents[2:])
+        elif u.node.name in ("add", "sub", "neg", "scale_pb", "reshape", "clone"):
+            stack.extend(u.node.parents)
+    return out
